@@ -1,6 +1,7 @@
 #!/usr/bin/env python3
 """tools/keep_seed.py <prop> <n> <scratch_worktree> [--missed-first "<what was strengthened>"] [--suite "<result>"]
-copies /tmp/seed/out_<prop>/change_<n> to /verif/seeded/<prop>-<n>/ and writes meta.json from a fresh evaluation"""
+                        [--src /tmp/seed/out2_<prop>/change_<k>]
+copies /tmp/seed/out_<prop>/change_<n> (or --src) to /verif/seeded/<prop>-<n>/ and writes meta.json from a fresh evaluation"""
 import json
 import os
 import re
@@ -11,6 +12,7 @@ import sys
 prop, n, wt = sys.argv[1:4]
 missed = None
 suite = None
+srcdir_override = None
 args = sys.argv[4:]
 while args:
     if args[0] == '--missed-first':
@@ -19,9 +21,12 @@ while args:
     elif args[0] == '--suite':
         suite = args[1]
         args = args[2:]
+    elif args[0] == '--src':
+        srcdir_override = args[1]
+        args = args[2:]
     else:
         args = args[1:]
-srcdir = '/tmp/seed/out_%s/change_%s' % (prop, n)
+srcdir = srcdir_override or '/tmp/seed/out_%s/change_%s' % (prop, n)
 dst = '/verif/seeded/%s-%s' % (prop, n)
 os.makedirs(dst, exist_ok=True)
 for f in ('patch.diff', 'demo.py', 'notes.md'):
